@@ -27,7 +27,9 @@ def run_case(job):
     from pandapower.control import ConstControl
     from pandapower.timeseries import DFData, OutputWriter
     from pandapipes.timeseries import run_timeseries
-    prof = job["profile"]
+    full = job["profile"]                                   # the rows of the data source
+    rows = [int(s) for s in (job.get("steps") or range(1, len(full) + 1))]      # the rows that are run, in this order (1-based)
+    prof = full
     mode = job.get("mode", "hydraulics")
     net, _ = H.NETS[job["net"]]()
     base_sink = net.sink.mdot_kg_per_s.values.copy()
@@ -37,7 +39,7 @@ def run_case(job):
     ds2 = DFData(pd.DataFrame({"eg": [INPUTS[p][2] for p in prof]}))        # separate source: one dtype per data source
     ConstControl(net, "sink", "mdot_kg_per_s", element_index=list(net.sink.index), profile_name=["s%d" % i for i in range(len(base_sink))], data_source=ds)
     ConstControl(net, "ext_grid", "in_service", element_index=[net.ext_grid.index[0]], profile_name=["eg"], data_source=ds2)
-    steps = list(range(n))
+    steps = [r - 1 for r in rows]
     ow = OutputWriter(net, steps, output_path=None, log_variables=LOGGED)
     raised, exc = False, ""
     try:
@@ -45,14 +47,14 @@ def run_case(job):
     except Exception as e:  # noqa
         raised, exc = True, type(e).__name__
     out = []
-    for t in steps:
+    for pos, t in enumerate(steps):
         arrs = []
         for tbl, col in LOGGED:
             key = "%s.%s" % (tbl, col)
             npr = getattr(ow, "np_results", {}).get(key)          # filled step by step (also when the loop aborts later)
             dfo = ow.output.get(key)
-            if raised and npr is not None and t < len(npr):       # the series aborted: only the raw step buffer exists
-                arrs.append(np.asarray(npr[t], dtype=float))
+            if raised and npr is not None and pos < len(npr):     # the series aborted: only the raw step buffer exists (one row per step run)
+                arrs.append(np.asarray(npr[pos], dtype=float))
             elif dfo is not None and t in dfo.index:
                 arrs.append(dfo.loc[t].values)
             else:
@@ -71,7 +73,9 @@ def run_case(job):
         par = ow.output.get("Parameters")
         flagged = bool(par is not None and "powerflow_failed" in par.columns and t in par.index and bool(par.loc[t, "powerflow_failed"]))
         out.append({"logged": logged, "standalone": sa, "flagged": flagged})
-    return {"id": job["id"], "profile": prof, "cod": job["cod"], "raised": raised, "exc": exc, "steps": out, "net": job["net"], "mode": mode}
+    # the trace carries the inputs along the run (the effective profile); rows that are not run must leave no trace
+    return {"id": job["id"], "profile": [full[r - 1] for r in rows], "rows": rows, "full_profile": full, "cod": job["cod"], "raised": raised, "exc": exc,
+            "steps": out, "net": job["net"], "mode": mode}
 
 
 def validate(cases):
@@ -99,25 +103,28 @@ def main():
     def emit():
         cfg = "_ts_%d.cfg" % os.getpid()
         with open(os.path.join(tlc.SPEC_DIR, cfg), "w") as f:
-            f.write('SPECIFICATION Spec\nCONSTANTS\n  MaxLen = 4\n  Inputs = {"A", "B", "X"}\n  EmitOn = TRUE\nINVARIANT Emit\nCHECK_DEADLOCK FALSE\n')
+            f.write('SPECIFICATION Spec\nCONSTANTS\n  MaxLen = 4\n  Inputs = {"A", "B", "X"}\n  EmitOn = TRUE\n  StepOrders = "any"\nINVARIANT Emit\nCHECK_DEADLOCK FALSE\n')
         try:
             r = tlc.run("MC_TS", cfg=cfg, workers=1, timeout=3000, check=False)
         finally:
             os.remove(os.path.join(tlc.SPEC_DIR, cfg))
         seen, out = set(), []
         for x in r.by_tag("TS"):
-            k = json.dumps([x["profile"], x["cod"], x["transient"]])
+            k = json.dumps([x["profile"], x["steps"], x["cod"], x["transient"]])
             if k not in seen:
                 seen.add(k)
-                out.append({"profile": x["profile"], "cod": x["cod"], "transient": x["transient"]})
+                out.append({"profile": x["profile"], "steps": x["steps"], "cod": x["cod"], "transient": x["transient"]})
         return out
     beh = core.cached("c13beh" + sh, emit)
     jobs = []
     for i, b in enumerate([b for b in beh if not b["transient"]]):
         for net, mode in (("branched", "hydraulics"), ("branched", "sequential"), ("gas", "hydraulics")):
-            jobs.append({"id": "ts%d.%s.%s" % (i, net, mode), "net": net, "mode": mode, "profile": b["profile"], "cod": b["cod"]})
+            jobs.append({"id": "ts%d.%s.%s" % (i, net, mode), "net": net, "mode": mode, "profile": b["profile"], "steps": b["steps"], "cod": b["cod"]})
     if tr == "quick":
-        jobs = rnd.sample(jobs, min(len(jobs), 260))
+        # stratified: complete ascending runs, and subsets / reorderings of the rows
+        full = [j for j in jobs if j["steps"] == list(range(1, len(j["profile"]) + 1))]
+        part = [j for j in jobs if j["steps"] != list(range(1, len(j["profile"]) + 1))]
+        jobs = rnd.sample(full, min(len(full), 160)) + rnd.sample(part, min(len(part), 140))
     cases = core.pmap(run_case, jobs, chunksize=4)
     # transient series (run_timeseries(transient=True)): hydraulics of every step = stand-alone, a step depends on the past only
     from . import transient as TR
@@ -138,7 +145,7 @@ def main():
            "transient_series": len(tcases), "transient_steps_compared": sum(len(c["steps"]) for c in tcases),
            "failing_clause_counts": dict(cc), "trace_spec_states": res.distinct,
            "evaluations": len(cases), "distinct_nontrivial": sum(1 for c in cases if "X" in c["profile"] and len(c["profile"]) >= 3),
-           "rule": "all profiles of length <= 4 over {A, B, infeasible} x continue_on_divergence x {stationary, transient}, run as pandapipes time series on two nets / modes (transient: two heat nets with a constant-property liquid, run_timeseries(transient=True), each also over the profile without its last step) "
+           "rule": "all profiles of length <= 4 over {A, B, infeasible} x every subset of the rows in every order (time_steps) x continue_on_divergence x {stationary, transient} (quick: stratified sample), run as pandapipes time series on two nets / modes (transient: two heat nets with a constant-property liquid, run_timeseries(transient=True), each also over the profile without its last step) "
                    "(quick: seeded sample of 260); non-trivial = an infeasible step inside a profile of length >= 3"}
     rc = V.finish()
     core.write_evidence("C13", "model_checking", cov, time.time() - t0, len(V.violations),
@@ -154,9 +161,9 @@ def replay(path):
     c = rec["case"]
     if c.get("transient"):
         from . import transient as TR
-        case = TR.run_case({"id": c["id"], "net": c["net"], "profile": c["profile"], "cod": c["cod"]})[0]
+        case = TR.run_case({"id": c["id"], "net": c["net"], "profile": c.get("full_profile", c["profile"]), "steps": c.get("rows"), "cod": c["cod"]})[0]
     else:
-        case = run_case({"id": c["id"], "net": c["net"], "mode": c["mode"], "profile": c["profile"], "cod": c["cod"]})
+        case = run_case({"id": c["id"], "net": c["net"], "mode": c["mode"], "profile": c.get("full_profile", c["profile"]), "steps": c.get("rows"), "cod": c["cod"]})
     res, fails = validate([case])
     for f in fails:
         print("FAIL", f)
